@@ -41,6 +41,7 @@ type OpResult struct {
 	CBCalls int
 	keepB   [][]byte
 	keepS   []string
+	keepO   []geojson.Object // objects the library handed to the caller (callback arguments, accessor results)
 }
 
 // canon builds a readable canonical encoding of results.
@@ -402,6 +403,10 @@ func (s *cbState) visit() bool {
 
 func (s *cbState) objCB(o geojson.Object) bool {
 	s.c.Obj(o)
+	if len(s.res.keepO) < 12 {
+		// a caller may keep what its callback was given and look at it later
+		s.res.keepO = append(s.res.keepO, o)
+	}
 	return s.visit()
 }
 
@@ -610,6 +615,7 @@ func (x *caller) typeSpecific(o geojson.Object, op *Op, c *canon, res *OpResult)
 	case *geojson.Rect:
 		c.Rect(v.Base())
 		p := v.Polygon()
+		res.keepO = append(res.keepO, p)
 		c.Obj(p)
 		s := p.JSON()
 		c.Str(s)
@@ -619,6 +625,7 @@ func (x *caller) typeSpecific(o geojson.Object, op *Op, c *canon, res *OpResult)
 		c.F(v.HaversineTo(opPt(op)))
 		c.Pt(v.Center())
 		p := v.Polygon()
+		res.keepO = append(res.keepO, p)
 		c.Obj(p)
 		s := p.JSON()
 		c.Str(s)
@@ -630,6 +637,7 @@ func (x *caller) typeSpecific(o geojson.Object, op *Op, c *canon, res *OpResult)
 		c.Series(v.Base())
 		c.B(v.Base().Closed())
 	case *geojson.Feature:
+		res.keepO = append(res.keepO, v.Base())
 		c.Obj(v.Base())
 	default:
 		if b, ok := o.(interface{ Base() []geojson.Object }); ok {
@@ -829,6 +837,19 @@ func (r *OpResult) lateHash() uint64 {
 	for _, s := range r.keepS {
 		h = fnv64s(h, s)
 		h = fnv64(h, []byte{0xfe})
+	}
+	for _, o := range r.keepO {
+		var c canon
+		func() {
+			defer func() {
+				if p := recover(); p != nil {
+					c.Tag("panic")
+				}
+			}()
+			c.Obj(o)
+		}()
+		h = fnv64(h, c.b)
+		h = fnv64(h, []byte{0xfd})
 	}
 	return h
 }
